@@ -232,3 +232,36 @@ def c13_a1(ctx):
     miss = [x for x in need if x not in got]
     ctx.check(not miss, 'C13.A1', ALF + ':EphysAlfCreator', 'exported tables', 'all %d object tables of the export were typed' % len(need), 'object tables no longer written / not recognised: %s' % miss)
     return allsaved
+
+
+def check_index_of(ctx, rule):
+    """_index_of(arr, lookup) typed against its signature: every return holds positions IN THE LOOKUP (caller's order), on the axes of arr."""
+    repo = ctx.repo
+    fi = repo.func(AR, '_index_of')
+    from vlib.shape import Shape
+    A_, K_, X_ = B('ArrAx'), B('LookupPos'), B('Ids')
+    S = Shape(repo, inline_depth=1)
+    rets = S.run(fi, {fi.params[0]: Arr((A_,), Ix(X_)), fi.params[1]: Arr((K_,), Ix(X_))})
+    bad, und, n = None, None, 0
+    for node, v in rets:
+        n += 1
+        if isinstance(v, Arr) and isinstance(v.elem, Ix):
+            sp = v.elem.space
+            if sp is K_:
+                continue
+            if is_unk(sp):
+                und = node
+                continue
+            bad = (node, sp)
+        elif is_unk(v) or (isinstance(v, Arr) and is_unk(v.elem)):
+            und = node
+        else:
+            bad = (node, v)
+    if bad is not None:
+        node, sp = bad
+        why = 'positions in the SORTED lookup' if getattr(sp, 'kind', '') == 'SortedPos' else ('positions valid only for a sorted lookup' if getattr(sp, 'kind', '') == 'Ext' else str(sp))
+        ctx.violated(rule, fi, node, '_index_of returns `%s`: %s, not positions in the lookup table as given (the caller\'s order, which may be unsorted)' % (unparse(node.value)[:70], why))
+    elif und is not None:
+        ctx.undecided(rule, fi, 'a return of _index_of could not be typed', und)
+    else:
+        ctx.holds(rule, fi, 'every return of _index_of (%d) holds positions in the lookup table in the caller\'s order, on the axes of the values' % n, '_index_of')
